@@ -274,17 +274,17 @@ example : genParseTag [0x65, 0x6E, 0x75, 0x6D, 0x3D, 0x61, 0x20, 0x62, 0x2C, 0x6
 
 /-- Inside the region the text gozodgen writes for a field is a function of the rules pkg/tagparser (so
     FromStruct) reads from the tag: the generator's own parser adds nothing and loses nothing. -/
-theorem c13_emit_reads_tagparser (t : GenEmit.Ty) (sn : Str) (s : Str) (rs : List Rule)
+theorem c13_emit_reads_tagparser (W : GenEmit.WriterFacts) (t : GenEmit.Ty) (sn : Str) (s : Str) (rs : List Rule)
     (h : parseRegion s = true) (hp : parseTag false s = .ok rs) :
-    GenEmit.emitField t sn s = GenEmit.emitRules t sn rs := by
+    GenEmit.emitField W t sn s = GenEmit.emitRules W t sn rs := by
   unfold GenEmit.emitField
   rw [c13_parse_partial s h, hp]
 
 /-- consequence for order: two tags of the region that tagparser reads as the same rule list are
     emitted identically (white space around rules and around `=` never reaches the generated code) -/
-theorem c13_emit_ws_invariant (t : GenEmit.Ty) (sn : Str) (s₁ s₂ : Str)
+theorem c13_emit_ws_invariant (W : GenEmit.WriterFacts) (t : GenEmit.Ty) (sn : Str) (s₁ s₂ : Str)
     (h₁ : parseRegion s₁ = true) (h₂ : parseRegion s₂ = true) (hp : parseTag false s₁ = parseTag false s₂) :
-    GenEmit.emitField t sn s₁ = GenEmit.emitField t sn s₂ := by
+    GenEmit.emitField W t sn s₁ = GenEmit.emitField W t sn s₂ := by
   unfold GenEmit.emitField
   rw [c13_parse_partial s₁ h₁, c13_parse_partial s₂ h₂, hp]
 
